@@ -337,10 +337,6 @@ func WalkVersions(ctx context.Context, fileSystem fs.FS, prefix, delimiter, keyM
 		if path == "." {
 			return nil
 		}
-		if contains(d.Name(), skipdirs) {
-			return fs.SkipDir
-		}
-
 		if !pastMarker {
 			if path == keyMarker {
 				pastMarker = true
@@ -353,6 +349,16 @@ func WalkVersions(ctx context.Context, fileSystem fs.FS, prefix, delimiter, keyM
 			// the version id marker only positions the listing inside
 			// the versions of the key marker
 			pastVersionIdMarker = true
+		}
+
+		// skipdirs are bookkeeping directories at the top of the bucket;
+		// deeper entries of the same name are ordinary keys, and a file of
+		// that name must not end the walk of its directory
+		if path == d.Name() && contains(d.Name(), skipdirs) {
+			if d.IsDir() {
+				return fs.SkipDir
+			}
+			return nil
 		}
 
 		if d.IsDir() {
